@@ -190,18 +190,24 @@ async fn open_and_send(opener: &Connection, dir: u8, plan: &StreamPlan, reg: &Re
 fn spawn_acceptors(conn: Connection, dir_in: u8, reg: Registry, obs: Observed, seed: u64) -> Vec<tokio::task::JoinHandle<()>> {
     let mut hs = vec![];
     {
-        let (conn, obs) = (conn.clone(), obs.clone());
+        let (conn, obs, reg) = (conn.clone(), obs.clone(), reg.clone());
         hs.push(tokio::spawn(async move {
             let mut n = 0u64;
             while let Ok(mut r) = conn.accept_uni().await {
                 n += 1;
-                let obs = obs.clone();
+                let (obs, reg) = (obs.clone(), reg.clone());
                 let mut rng = Rng::derive(seed, n);
-                let style = *rng.pick(&[RStyle::Read, RStyle::Tokio]);
+                let mut style = *rng.pick(&[RStyle::Read, RStyle::Tokio, RStyle::ReadExact]);
                 let bufsz = *rng.pick(&[1usize, 3, 1024, 65536]);
                 tokio::spawn(async move {
                     let id = r.id().into_u64();
-                    let res = recv_all(&mut r, style, bufsz, None).await;
+                    // read_exact needs to know how much to ask for: the length the sender
+                    // registered for this stream id (if the registration already happened)
+                    let expect = reg.lock().unwrap().get(&(dir_in, id)).map(|v| v.len());
+                    if expect.is_none() {
+                        style = RStyle::Read;
+                    }
+                    let res = recv_all(&mut r, style, bufsz, expect).await;
                     obs.lock().unwrap().push((dir_in, id, res));
                 });
             }
@@ -564,6 +570,128 @@ async fn raw_segmentation(args: &Args, rep: &mut Report) {
     drop(sess);
 }
 
+/// Streams opened while the connection-level flow-control credit is almost exhausted: a parked,
+/// unread stream leaves exactly `r` bytes of credit (calibrated on a twin connection), then a new
+/// stream is opened, written and finished; only afterwards is the parked stream drained. The
+/// preamble + payload of the new stream must still arrive exactly.
+async fn credit_squeeze(args: &Args, rep: &mut Report) {
+    const CONN_WINDOW: u32 = 32 * 1024;
+    fn transports() -> (quinn::TransportConfig, quinn::TransportConfig) {
+        let mut st = ends::default_transport();
+        st.receive_window(quinn::VarInt::from_u32(CONN_WINDOW));
+        st.stream_receive_window(quinn::VarInt::from_u32(1 << 20));
+        (st, ends::default_transport())
+    }
+    async fn setup() -> Result<(ends::Pair, SendStream, RecvStream), String> {
+        let (st, ct) = transports();
+        let pair = ends::pair(PairOpts { server_transport: Some(st), client_transport: Some(ct), relay: false }).await?;
+        let mut p = pair.cconn.open_uni().await.map_err(|e| e.to_string())?.await.map_err(|e| e.to_string())?;
+        p.write_all(b"P").await.map_err(|e| e.to_string())?;
+        let pr = match within(Duration::from_secs(3), pair.sconn.accept_uni()).await {
+            Waited::Done(Ok(r)) => r,
+            _ => return Err("parked stream not accepted".into()),
+        };
+        Ok((pair, p, pr))
+    }
+    // calibration: how many bytes fit on the parked stream until the credit is gone
+    let total = {
+        let (pair, mut p, _pr) = match setup().await {
+            Ok(x) => x,
+            Err(e) => return rep.inconclusive(format!("credit-squeeze calibration: {e}")),
+        };
+        let mut total = 1usize;
+        let chunk = [0x5au8; 1024];
+        loop {
+            match within(ms(250), p.write(&chunk)).await {
+                Waited::Done(Ok(n)) => total += n,
+                Waited::Done(Err(e)) => return rep.inconclusive(format!("credit-squeeze calibration write: {e}")),
+                Waited::TimedOut => break,
+            }
+        }
+        pair.cconn.close(wtransport::VarInt::from_u32(0), b"");
+        total
+    };
+    rep.max("max_credit_squeeze_calibrated_bytes", total as u64);
+    if total < 16 * 1024 || total > CONN_WINDOW as usize {
+        return rep.inconclusive(format!("credit-squeeze calibration gave {total} bytes for a {CONN_WINDOW}-byte window"));
+    }
+    let residues: Vec<usize> = if args.thorough { (0..=12).collect() } else { vec![0, 1, 2, 3, 4, 6] };
+    for r in residues {
+        for bidi in [false, true] {
+            rep.eval(format!("credit-squeeze|residual={r}|{}", if bidi { "bi" } else { "uni" }));
+            let (pair, mut p, mut pr) = match setup().await {
+                Ok(x) => x,
+                Err(e) => {
+                    rep.inconclusive(format!("credit-squeeze setup: {e}"));
+                    continue;
+                }
+            };
+            let fill = vec![0x5au8; total - 1 - r];
+            if !matches!(within(Duration::from_secs(3), p.write_all(&fill)).await, Waited::Done(Ok(()))) {
+                rep.inconclusive(format!("credit-squeeze r={r}: could not fill the parked stream"));
+                continue;
+            }
+            let body = payload(0xC5ED_0000 + r as u64 * 2 + bidi as u64, 27);
+            let c = pair.cconn.clone();
+            let b2 = body.clone();
+            let sender = tokio::spawn(async move {
+                if bidi {
+                    let (mut s, _r) = c.open_bi().await.map_err(|e| e.to_string())?.await.map_err(|e| e.to_string())?;
+                    s.write_all(&b2).await.map_err(|e| e.to_string())?;
+                    s.finish().await.map_err(|e| e.to_string())?;
+                } else {
+                    let mut s = c.open_uni().await.map_err(|e| e.to_string())?.await.map_err(|e| e.to_string())?;
+                    s.write_all(&b2).await.map_err(|e| e.to_string())?;
+                    s.finish().await.map_err(|e| e.to_string())?;
+                }
+                Ok::<(), String>(())
+            });
+            // let the new stream's first bytes meet the exhausted credit, then drain the parked one
+            tokio::time::sleep(ms(120)).await;
+            let drain = tokio::spawn(async move {
+                let mut buf = vec![0u8; 8192];
+                let mut n = 0usize;
+                while let Ok(Some(k)) = pr.read(&mut buf).await {
+                    n += k;
+                }
+                n
+            });
+            let recv = async {
+                if bidi {
+                    let (_s, mut r) = pair.sconn.accept_bi().await.map_err(|e| format!("accept_bi: {e}"))?;
+                    recv_all(&mut r, RStyle::Read, 4096, None).await
+                } else {
+                    let mut r = pair.sconn.accept_uni().await.map_err(|e| format!("accept_uni: {e}"))?;
+                    recv_all(&mut r, RStyle::Read, 4096, None).await
+                }
+            };
+            match within(Duration::from_secs(6), recv).await {
+                Waited::Done(Ok(got)) => {
+                    rep.count("credit_squeeze_streams_compared", 1);
+                    if got != body {
+                        let what = if got.len() < body.len() { "missing-bytes" } else if got.len() > body.len() { "extra-bytes" } else { "content" };
+                        rep.violation(
+                            format!("C01|credit-squeeze|{}|{what}", if bidi { "bi" } else { "uni" }),
+                            format!("stream opened with {r} byte(s) of connection flow-control credit left: application read {} bytes, {} were written", got.len(), body.len()),
+                            J::obj([("residual_credit", J::u(r as u64)), ("bidi", J::Bool(bidi)), ("sent_head", J::s(hex_head(&body, 27))), ("received_head", J::s(hex_head(&got, 27)))]),
+                        );
+                    }
+                }
+                Waited::Done(Err(e)) => rep.violation(
+                    format!("C01|credit-squeeze|{}|read-error", if bidi { "bi" } else { "uni" }),
+                    format!("stream opened with {r} byte(s) of connection flow-control credit left: {e}"),
+                    J::obj([("residual_credit", J::u(r as u64)), ("bidi", J::Bool(bidi))]),
+                ),
+                Waited::TimedOut => rep.inconclusive(format!("credit-squeeze r={r} bidi={bidi}: stream not delivered within 6 s")),
+            }
+            let _ = within(Duration::from_secs(2), sender).await;
+            let _ = p.finish().await;
+            let _ = within(Duration::from_secs(2), drain).await;
+            pair.cconn.close(wtransport::VarInt::from_u32(0), b"");
+        }
+    }
+}
+
 pub fn run(args: &Args) -> Report {
     let mut rep = Report::new();
     let groups: Vec<(bool, bool)> = if args.thorough { vec![(true, false), (false, false), (true, true), (false, true)] } else { vec![(true, false), (false, false), (true, true)] };
@@ -574,6 +702,7 @@ pub fn run(args: &Args) -> Report {
     }
     let rt = crate::runtime(true, 4);
     rt.block_on(raw_segmentation(args, &mut rep));
+    rt.block_on(credit_squeeze(args, &mut rep));
     rt.shutdown_timeout(Duration::from_millis(200));
     let _ = util::tick();
     rep
